@@ -95,7 +95,7 @@ def parents(ev):
         ps += ['⌊%s⌋', '⌈%s⌉']
     return ps
 
-def focused_cases(changes, rng, limit=400000):
+def focused_cases(changes, rng, limit=500000):
     """changes = report['evaluator_changes'] of the translator"""
     out = []
     extra_all = []
@@ -149,15 +149,27 @@ def focused_cases(changes, rng, limit=400000):
                             for c in sp[:8]:
                                 out.append(case(ev, None, f % (f % (a, b), c) if f[0].isalpha() or f[0] == '(' else f % (a, b) + (f.replace('%s', '', 1) % c)))
             elif arm in UN:
+                tenths = [] if ev in ('i64', 'complex') else [('%d.%d' % (abs(k) // 10, abs(k) % 10) if k >= 0 else '(-%d.%d)' % (abs(k) // 10, abs(k) % 10)) for k in range(-300, 301) if k % 10]
                 forms = [f for f in UN[arm] if not f[0].isalpha() or f.split('(')[0] in gen.F1[ev]]
                 if arm == 'Factorial' and not gen.HAS_BANG[ev]:
                     forms = []
                 if arm in ('Floor', 'Ceil') and not gen.HAS_FLOORBR[ev]:
                     forms = [f for f in forms if f[0].isalpha()]
                 for f in forms:
-                    for a in pool:
+                    for a in pool + ([] if thin else tenths):
                         out.append(case(ev, None, f % wrap(a) if not f[0].isalpha() else f % a))
                         out.append(case(ev, None, f % ('(-' + a + ')')))
+                    if not thin and ev != 'i64':
+                        # volume: random decimal arguments (1-4 fractional digits, magnitudes 1e-3 .. 200): value-dependent slips
+                        # that flip a last bit for a small fraction of operands
+                        for _ in range(40000 // max(1, len(forms))):
+                            d = 1 + rng.below(4)
+                            mag = rng.below(200 * 10 ** d) + 1
+                            txt = '%d.%s' % (mag // 10 ** d, str(mag % 10 ** d).rjust(d, '0'))
+                            if ev == 'complex' and rng.chance(1, 2):
+                                txt = txt + '+' + '%d.%di' % (rng.below(20), rng.below(10))
+                            a = txt if rng.chance(1, 2) else '(-' + txt + ')'
+                            out.append(case(ev, None, f % wrap(a) if not f[0].isalpha() else f % a))
                     for p in phs:
                         out.append(case(ev, p, f % '@'))
                         out.append(case(ev, p, f % '(-@)'))
